@@ -766,7 +766,8 @@ def eval_case(ctx, exe, case, oracle_bits=11):
             out["corr"].append({"what": "pmodel gave no CHECK line", "model": k})
         for cl in l1[8:]:
             if not cl.startswith("range"):
-                mv.append({"kind": "sign" if cl.startswith("sign") else cl.split(":")[0], "model": k, "text": "checkModel clause " + cl})
+                kind = "sign" if cl.startswith("sign") else ("iso" if cl.startswith("iso") else cl.split(":")[0])
+                mv.append({"kind": kind, "model": k, "text": "checkModel clause " + cl})
         for cl in l2[8:]:
             if cl.startswith("range"):
                 mv.append({"kind": "range", "model": k, "text": "checkModel clause " + cl})
